@@ -50,6 +50,13 @@ class Skip(Exception):
         self.why = why
 
 
+class FellOff(Skip):
+    """control reached the end of the body of a value-returning function"""
+    def __init__(self, fname):
+        super().__init__('control reached the end of value-returning function ' + fname)
+        self.fname = fname
+
+
 class Diverge(Exception):
     pass
 
@@ -258,7 +265,7 @@ class RefInt:
                 r = x.v if x.t is None else self.conv(x.v, x.t, f.ret)
             else:
                 if f.ret != EMPTY:
-                    raise Skip('model: control reached end of value-returning function ' + f.name)
+                    raise FellOff(f.name)
         finally:
             self.scopes = saved
             self.depth -= 1
@@ -439,9 +446,8 @@ class RefInt:
         elif el == BYTE:
             size = n
         else:
-            if -8 < n < 0 and not self.bool_vla_guard:
-                raise Skip('bool array with length -7..-1 (guard gap)')
-            size = (n + 7) >> 3
+            # a negative length is a fault for every element type
+            size = (n + 7) >> 3 if n >= 0 else -1
         if size < 0 or size > self.stack_bytes:
             if self.checked:
                 raise Fault('stack_overflow')
